@@ -15,11 +15,12 @@ struct C09 {
 
   // random mode: the event-driven TPDO may have an inhibit time of inh ticks; a transmission postponed by it goes out when the time ends - if the node is still OPERATIONAL
   int inh = 0; long T = 0, inh_end = -1; bool pend = false; int postponed = 0, postponed_dropped = 0;
-  void build(uint8_t nodeid, int inhibit_ticks = 0) {
-    inh = inhibit_ticks;
+  bool syncprod = false;   // random mode, odd node ids: the node is the SYNC producer (period 1 tick): a SYNC frame per tick in PRE-OPERATIONAL and OPERATIONAL, none in STOPPED
+  void build(uint8_t nodeid, int inhibit_ticks = 0, bool sync_producer = false) {
+    inh = inhibit_ticks; syncprod = sync_producer;
     s.nodeid = nodeid; other = nodeid == 9 ? 10 : 9;
     w.mandatory(false, 1);                                   // heartbeat producer: 1 ms == 1 tick
-    add_sync(w, 0x80, 0);
+    add_sync(w, syncprod ? 0x40000080u : 0x80, syncprod ? 1000 : 0);
     add_hbcons(w, {{other, 50}});
     rp = &w.add_int(0x2100, 1, 1, false, false, true, true, 0, true, false);
     w.add_int(0x2101, 1, 1, false, false, true, true, 0x5A, true, false);
@@ -174,6 +175,7 @@ struct C09 {
   void tick() {
     Exp e;
     if (mode == M_PREOP || mode == M_OP || mode == M_STOP) e.tx.push_back(Frame::mk(0x700u + s.nodeid, 1, {(uint8_t)(mode == M_PREOP ? 127 : mode == M_OP ? 5 : 4)}));
+    if (syncprod && (mode == M_PREOP || mode == M_OP)) { e.tx.push_back(Frame::mk(0x80, 0, {})); e.unordered = true; }
     T++;
     if (inh_end == T) { inh_end = -1; if (pend) { pend = false; if (mode == M_OP) { e.tx.push_back(Frame::mk(0x180u + s.nodeid, 1, {0x5A})); e.unordered = true; inh_end = T + inh; } } }
     run("tick (heartbeat period = 1 tick)", [&]() { s.step_tick(); }, e, mode);
@@ -218,7 +220,7 @@ void case_enum(Ctx &c) {
   x.finish();
 }
 void case_random(Ctx &c) {
-  C09 x(c); { uint8_t nid = (uint8_t)(1 + c.t.below(127)); x.build(nid, c.t.coin() ? 1 + (int)c.t.below(5) : 0); }
+  C09 x(c); { uint8_t nid = (uint8_t)(1 + c.t.below(127)); x.build(nid, c.t.coin() ? 1 + (int)c.t.below(5) : 0, nid % 2 == 1); if (nid % 2) c.cls("node-is-sync-producer"); }
   int steps = 0;
   while (!c.t.exhausted() && steps < 200) {
     steps++; c.ops++;
